@@ -106,6 +106,20 @@ reg('C17', 'exploration',
     'z-order family exercised on single arrays only and inputs contain no '
     'exactly coincident particles (both are listed C01 findings).')
 
+reg('C07', 'exploration',
+    'product-rule reference model of the image set (numpy) compared with '
+    'the arrays after every DomainManager update, with checks on wrapped real '
+    'particles, copied / default properties, tags, duplicates and '
+    'idempotence; replayed under gcc ASan+UBSan',
+    'Held on every generated case: 1-3 D, every mix of periodic / mirror / '
+    'free axes, boxes at random offsets, n_layers 1-3, 1-3 arrays, points on '
+    'and one ulp inside the faces, variable h, property subsets as None / '
+    'list / dict, 1-5 move / no-op / add-property rounds.',
+    'Period >= 2.2 ghost layers; particles leave a periodic box by less than '
+    'a period and stay strictly inside a mirror box (a particle exactly on a '
+    'mirror face coincides with its image); threshold band 1e-12 of the '
+    'period.')
+
 _pending = {
 }
 for _i in range(1, 21):
